@@ -2,13 +2,12 @@
 From Verif Require Import Bytes Codec SigV4 SigV4Spec SigV4EncProofs SigV4HdrProofs SigV4SortProofs SigV4AuthProofs.
 
 Lemma canonical_request_eq_spec r path names presigned :
-  clean (r_host r) -> headers_clean (r_headers r) names ->
   canonical_request r (spec_uri_encode true path) names presigned =
   canonical_request_of (r_method r) (spec_canonical_uri path) (spec_canonical_query (query_pairs (r_query r)))
     (spec_header_pairs (r_host r) (r_headers r) names) (payload_line r presigned).
 Proof.
-  intros Hh Hc. unfold canonical_request.
-  rewrite (proj2 (canon_uri_standard path)), canon_query_eq_spec, collect_eq_spec by assumption. reflexivity.
+  unfold canonical_request.
+  rewrite (proj2 (canon_uri_standard path)), canon_query_eq_spec, collect_eq_spec. reflexivity.
 Qed.
 
 Lemma not_anonymous r p id date region service term :
@@ -38,8 +37,6 @@ Lemma standard_request_accepted cfg facts now r path p id date region service te
   mem_bytes B"host" (signed_header_names (p_signed_headers p)) = true ->
   all_sensitive_signed r (signed_header_names (p_signed_headers p)) = true ->
   ecdsa_streaming r = false ->
-  clean (r_host r) ->
-  headers_clean (r_headers r) (signed_header_names (p_signed_headers p)) ->
   verify facts (key_of secret date region service term)
     {| s_alg := p_alg p; s_ts := p_timestamp p; s_scope := join B"/" [date; region; service; term];
        s_cr := canonical_request_of (r_method r) (spec_canonical_uri path)
@@ -48,11 +45,11 @@ Lemma standard_request_accepted cfg facts now r path p id date region service te
                  (payload_line r (p_presigned p)) |} (p_signature p) = true ->
   middleware cfg facts now r = Accepted id.
 Proof.
-  intros Hp Hq H1 H2 H3 H4 H5 H6 H7 H8 H9 W1 W2 H10 H11 H13 Hh Hc H12.
+  intros Hp Hq H1 H2 H3 H4 H5 H6 H7 H8 H9 W1 W2 H10 H11 H13 H12.
   unfold middleware. rewrite Hq, Hp, (proj1 (canon_uri_standard path)).
   rewrite (not_anonymous r p id date region service term H1 H3).
   apply check_auth_accept_iff.
   exists p, date, region, service, term, secret, t.
   repeat split; try assumption.
-  unfold msg_of. rewrite canonical_request_eq_spec by assumption. exact H12.
+  unfold msg_of. rewrite canonical_request_eq_spec. exact H12.
 Qed.
